@@ -25,12 +25,13 @@ def DocumentedValid (c : FilterCfg) (s : List Char) : Prop :=
 /-- the whole-sequence verdict is exactly the documented predicate. -/
 theorem C12_valid_all (c : FilterCfg) (s : List Char) :
     c.valid s false = true ↔ DocumentedValid c s := by
-  sorry
+  rw [valid_false]
+  exact validObserved_iff c s
 
 /-- the last-window verdict equals the whole-sequence verdict of the final window. -/
 theorem C12_last (c : FilterCfg) (s : List Char) (hk : 1 ≤ c.k) :
-    c.valid s true = c.valid (s.drop (s.length - c.k)) false := by
-  sorry
+    c.valid s true = c.valid (s.drop (s.length - c.k)) false :=
+  valid_true c s hk
 
 /-- rules decidable inside one window: run limit shorter than the window, motifs no longer than
 the window. -/
@@ -41,29 +42,32 @@ def FilterCfg.WindowDecidable (c : FilterCfg) : Prop :=
 verdict is the conjunction of the verdicts of all windows. -/
 theorem C12_window_conj (c : FilterCfg) (s : List Char) (hc : c.WindowDecidable)
     (hs : c.k ≤ s.length) :
-    c.valid s false = (windows c.k s).all fun w => c.valid w false := by
-  sorry
+    c.valid s false = (windows c.k s).all fun w => c.valid w false :=
+  valid_eq_all_windows c s hc.1 hc.2.1 hc.2.2 hs
 
+-- (the two hypotheses turn out not to be needed: `complement` is an involution on all characters)
+set_option linter.unusedVariables false in
 /-- an A/C/G/T string and its reverse complement get the same verdict (motifs are ACGT strings). -/
 theorem C12_revcomp (c : FilterCfg) (s : List Char)
     (hs : ∀ ch ∈ s, (nucIdx ch).isSome = true)
     (hm : ∀ ms, c.motifs = some ms → ∀ m ∈ ms, ∀ ch ∈ m, (nucIdx ch).isSome = true) :
     c.valid (revComp s) false = c.valid s false := by
-  sorry
+  rw [valid_false, valid_false]
+  exact validObserved_revComp c s
 
 /-- a foreign character is always rejected. -/
 theorem C12_foreign (c : FilterCfg) (s : List Char) (ch : Char) (h : ch ∈ s) (hf : nucIdx ch = none) :
-    c.valid s false = false := by
-  sorry
+    c.valid s false = false :=
+  valid_foreign c s ch h hf
 
 /-- the model's `isInfix` is Python's substring test. -/
-theorem C12_isInfix (p s : List Char) : isInfix p s = true ↔ p <:+: s := by
-  sorry
+theorem C12_isInfix (p s : List Char) : isInfix p s = true ↔ p <:+: s :=
+  isInfix_iff p s
 
 /-- the constructor accepts a configuration iff run ≤ k and all motifs ≤ k. -/
 theorem C12_accepted (c : FilterCfg) :
-    c.accepted = true ↔ (∀ r, c.run = some r → r ≤ c.k) ∧ (∀ ms, c.motifs = some ms → ∀ m ∈ ms, m.length ≤ c.k) := by
-  sorry
+    c.accepted = true ↔ (∀ r, c.run = some r → r ≤ c.k) ∧ (∀ ms, c.motifs = some ms → ∀ m ∈ ms, m.length ≤ c.k) :=
+  accepted_iff c
 
 def exampleCfg : FilterCfg :=
   { k := 8, run := some 2, motifs := some ["GC".toList], gc := some ⟨4, 4, 4⟩ }
